@@ -589,8 +589,13 @@ func emitPathsAreasAndRelations(source ingest.FeatureSource, o *Options, s *enco
 			}
 			relations[g].FromFeature(feature.(*ingest.RelationFeature), s, nt)
 			relations[g].Relations = summary.RelationMembers.FillReferences(relations[g].Relations[0:0], feature.FeatureID(), nt)
-			n := relations[g].Marshal(b6.FeatureTypePath, &osmNamespaces, buffers[g])
 			eid := FeatureID{Namespace: nt.Encode(feature.(*ingest.RelationFeature).RelationID.Namespace), Type: b6.FeatureTypeRelation, Value: feature.(*ingest.RelationFeature).RelationID.Value}
+			// Marshal against the namespaces recorded in the header of the block
+			// the relation is written to (see addFeatureBlockBuilder), since
+			// that's what readers unmarshal the relation's relations against.
+			namespaces := osmNamespaces
+			namespaces[b6.FeatureTypeRelation] = eid.Namespace
+			n := relations[g].Marshal(b6.FeatureTypePath, &namespaces, buffers[g])
 			emit(eid, encoding.NoTag, buffers[g][0:n])
 		}
 		return nil
